@@ -92,7 +92,32 @@ def check_adapter(chk, rule, repo, layout_eval, key, blank_rule=None):
                 return got == ("stripped", X)
             return got == ("term", ("call", ("name", conv), (("abs", "stripped", X),), ()))
 
-        decide("a filled field (text with a non-blank character)", filled, expect_filled)
+        try:
+            _res(paths, filled)
+            decidable = True
+        except Unknown:
+            decidable = False
+        if decidable:
+            decide("a filled field (text with a non-blank character)", filled, expect_filled)
+        else:
+            # the body inspects the text (isdigit, startswith, ...): decide per formatting class of admissible
+            # field contents instead (sign x padding x notation), by constant folding
+            samples = {
+                "AsciiInteger": ["0", "7", "   42", "42   ", "-12", "+12", "007", " -0012 ", "16384"],
+                "AsciiFloat": ["1.5", "-1.5E+03", " 1.0000000E-01", "+2.", "1e5", " -0.0000000E+00", "12", "  3.25  "],
+                "PaddedString": ["abc", "  a b ", "x", "A-1 "],
+            }[name]
+            conv_fn = {"AsciiInteger": int, "AsciiFloat": float, "PaddedString": str}[name]
+            for sample in samples:
+                want_v = conv_fn(sample.strip())
+                try:
+                    got = _res(paths, {OBJ: ("c", sample)})
+                except Unknown as e:
+                    raise AnalysisError(f"{where}: cannot decide the result for the field content {sample!r} ({e}); normal form: {text}")
+                good = got[0] == "c" and type(got[1]) is type(want_v) and got[1] == want_v
+                chk.require(good, rule, where, f"{name}: field content {sample!r} -> {render(got)}",
+                            f"{name}: field content {sample!r} decodes to {render(got)}, the value written is {want_v!r} (normal form: {text[:160]})",
+                            key=f"{key[1]}:value", sample={"adapter": name, "input": sample, "result": render(got)})
         blank = {OBJ: ("blank",)}
         want = {"AsciiInteger": ("c", -1), "AsciiFloat": ("nan",), "PaddedString": ("empty",)}[name]
 
@@ -104,23 +129,59 @@ def check_adapter(chk, rule, repo, layout_eval, key, blank_rule=None):
         decide("an all-blank field", blank, expect_blank, r=blank_rule or rule, keysuffix="blank")
         return
     if name == "AsciiComplex":
-        R, I = ("name", "R"), ("name", "I")
-        val = {("attrof", ("term", ("name", "OBJ")), "real"): ("term", R),
-               ("attrof", ("term", ("name", "OBJ")), "imaginary"): ("term", I),
-               OBJ: ("term", ("name", "OBJ"))}
-        # tolerate obj["real"] as well
-        got = None
-        try:
-            got = _res(paths, val)
-        except Unknown as e:
-            raise AnalysisError(f"{where}: {e}")
-        want_terms = _complex_forms(R, I)
-        chk.require(
-            got[0] == "term" and got[1] in want_terms, rule, where,
-            f"AsciiComplex: (real, imaginary) -> real + 1j*imaginary",
-            f"AsciiComplex decodes to {render(got)}, expected real + 1j*imaginary",
-            key="AsciiComplex:value", sample={"adapter": name, "result": render(got)},
-        )
+        import math
+        from .records import unwrap
+        con = layout_eval.instantiate(mod, cls, [32], {}, None)
+        core, inner_chain = unwrap(con.sub)
+        if core.kind == "struct":
+            R, I = ("name", "R"), ("name", "I")
+            val = {("attrof", ("term", ("name", "OBJ")), "real"): ("term", R),
+                   ("attrof", ("term", ("name", "OBJ")), "imaginary"): ("term", I),
+                   OBJ: ("term", ("name", "OBJ"))}
+            try:
+                got = _res(paths, val)
+            except Unknown as e:
+                raise AnalysisError(f"{where}: {e}")
+            want_terms = _complex_forms(R, I)
+            chk.require(
+                got[0] == "term" and got[1] in want_terms, rule, where,
+                f"AsciiComplex: (real, imaginary) -> real + 1j*imaginary",
+                f"AsciiComplex decodes to {render(got)}, expected real + 1j*imaginary",
+                key="AsciiComplex:value", sample={"adapter": name, "result": render(got)},
+            )
+            halves = []
+            for f in core.fields:
+                c2, ch2 = unwrap(f)
+                halves.append((getattr(f, "name", None), [getattr(a, "cls", None) for a in ch2], c2.kind, repr(getattr(c2, "size", None))))
+            ok = [h[0] for h in halves] == ["real", "imaginary"] and all(h[1] == ["AsciiFloat"] and h[3] == "16" for h in halves)
+            chk.require(ok, blank_rule or rule, where.replace("_decode", "__init__"), "each half is its own AsciiFloat(n/2): a blank half decodes to NaN on its own",
+                        f"the two halves are {halves}: not two AsciiFloat(n_bytes // 2) fields", key="AsciiComplex:halves")
+            return
+        if core.kind != "str":
+            raise AnalysisError(f"{where}: AsciiComplex over a {core.kind} is not modelled")
+        # the whole field is read as text and split in the decoder: decide per blank/filled class of each half
+        w = 16
+        sval = {SELF: ("term", ("name", "SELF"))}
+        for k2, v2 in con.attrs.items():
+            if isinstance(v2, (int, float, str)):
+                sval[("attrof", ("term", ("name", "SELF")), k2)] = ("c", v2)
+        cases = [("both filled", " 1.2500000E+00", "-2.5000000E-01"), ("real blank", "", " 3.0000000E+00"), ("imaginary blank", " 4.0000000E+00", ""), ("both blank", "", "")]
+        for label, re_, im_ in cases:
+            text_ = re_.rjust(w) + im_.rjust(w)
+            want = complex(float(re_) if re_.strip() else float("nan"), float(im_) if im_.strip() else float("nan"))
+            try:
+                v_ = dict(sval)
+                v_[OBJ] = ("c", text_)
+                got = _res(paths, v_)
+            except Unknown as e:
+                raise AnalysisError(f"{where}: cannot decide the case {label} ({e}); normal form: {text}")
+            def same(a, b):
+                return (math.isnan(a) and math.isnan(b)) or a == b
+            good = got[0] == "c" and isinstance(got[1], complex) and same(got[1].real, want.real) and same(got[1].imag, want.imag)
+            chk.require(good, (blank_rule or rule) if "blank" in label else rule, where,
+                        f"AsciiComplex: {label} -> {render(got)}",
+                        f"AsciiComplex: field with {label} decodes to {render(got)}, expected {want!r}: a blank component must read as NaN, not raise or disturb the other component",
+                        key=f"AsciiComplex:{label}", sample={"adapter": name, "case": label, "result": render(got)})
         return
     if name == "Factor":
         F = ("name", "F")
